@@ -9,6 +9,7 @@ mod rng;
 mod sx;
 mod c01;
 mod c02;
+mod c04;
 mod c05;
 mod c06;
 mod c07;
@@ -79,6 +80,7 @@ fn run_isolated(prop: &str, cases_file: &str, ncases: usize, outdir: &str, stall
 fn prop(id: &str) -> Prop {
     match id {
         "C01" => Prop { gen: c01::gen, run: c01::run },
+        "C04" => Prop { gen: c04::gen, run: c04::run },
         "C08" => Prop { gen: c08::gen, run: c08::run },
         "C17" => Prop { gen: c17::gen, run: c17::run },
         "C10" => Prop { gen: c10::gen, run: c10::run },
@@ -178,6 +180,11 @@ fn main() {
             drop(cf);
             if isolated(&a[2]) { run_isolated(&a[2], &format!("{}/cases.txt", outdir), cases.len(), outdir, 120); }
             else { run_all(&p, &cases, outdir); }
+        }
+        "text" => {
+            // dev helper: print the GRL text of a C01 / C04 case given on the command line or (with @file:line) in a file
+            let c = Sx::parse(&a[3]);
+            match a[2].as_str() { "C04" => print!("{}", c04::file_text(c.at(1), c.at(2))), "C01" => print!("{}", c01::grl_text(c.at(0))), _ => {} }
         }
         "one" => {
             let c = Sx::parse(&a[3]);
